@@ -2639,8 +2639,34 @@ func writeBodyFixedSize(w *bufio.Writer, r io.Reader, size int64) error {
 		}
 	}
 
-	n, err := copyBodyStream(w, r)
+	// Never put more than the declared size on the wire.
+	src, capped := r, false
+	switch v := r.(type) {
+	case *os.File, *io.LimitedReader:
+		// Keep the sendfile path.
+	case io.WriterTo:
+		if bwt, ok := r.(BodyWriterTo); ok && !bwt.SupportsBodyWriteTo() {
+			capped = true // consumed through Read
+		} else if l, ok := v.(interface{ Len() int }); ok && int64(l.Len()) > size {
+			// Keep the WriteTo path, but refuse readers known to hold too much.
+			return fmt.Errorf("body stream holds %d bytes instead of %d bytes", l.Len(), size)
+		}
+	default:
+		capped = true
+	}
+	if capped {
+		src = &io.LimitedReader{R: r, N: size}
+	}
 
+	n, err := copyBodyStream(w, src)
+
+	if capped && n == size && err == nil {
+		// The stream must be at EOF now, as it was read to EOF before.
+		var probe [1]byte
+		if m, _ := io.ReadAtLeast(r, probe[:], 1); m > 0 {
+			err = fmt.Errorf("body stream yields more than the declared %d bytes", size)
+		}
+	}
 	if n != size && err == nil {
 		err = fmt.Errorf("copied %d bytes from body stream instead of %d bytes", n, size)
 	}
